@@ -3126,6 +3126,16 @@ _SEPNAME = {FM.Separators.Statement: "stmt", FM.Separators.Newline: "newline", F
             FM.Separators.Dot: "dot", FM.Separators.Indent: "indent", FM.Separators.DeIndent: "deindent", FM.Separators.Block: "block"}
 
 
+def fm_private(name: str):
+    """a private helper of formatter.py by name, tolerant of a change in the number of leading underscores (a rename that keeps the behaviour must not
+    break the correspondence); None when there is no such function - the comparison that needs it is then skipped and noted"""
+    want = name.lstrip("_")
+    for k, v in FM.__dict__.items():
+        if k.lstrip("_") == want and callable(v):
+            return v
+    return None
+
+
 def show_pieces(ps) -> str:
     return " ".join(("S" + hx(p)) if isinstance(p, str) else _SEPNAME[p] for p in ps)
 
@@ -3142,6 +3152,16 @@ def style_args(sty) -> list[str]:
         else:
             out.append(hx(v))
     return out
+
+
+def _py_remove_orphaned(ts) -> None:
+    """stand-in used only when formatter.py has no function of that name any more: the stage is then taken from the model's definition, so that the later
+    stages can still be compared (the final text is always compared with tumfl.format itself)"""
+    out = drive([("mpass", "orphans", _enc_pieces(ts), *style_args(FormattingStyle))])[0]
+    new = []
+    for w in out[3:].split():
+        new.append(unhx(w[1:]) if w.startswith("S") else _SEPBYNAME[w])
+    ts[:] = new
 
 
 def py_format_stages(src: str, sty) -> str:
@@ -3174,7 +3194,7 @@ def py_format_stages(src: str, sty) -> str:
         ok = ok and stage("spacing", lambda: FM.add_spacing(ts, sty) if sty.BLOCK_SPACER > 0 else None)
         if ok:
             ts[0:0] = [f"--{sty.COMMENT_SEP}tumfl", FM.Separators.Newline]
-            priv["__remove_orphaned_tokens"](ts)
+            (fm_private("__remove_orphaned_tokens") or _py_remove_orphaned)(ts)
             out.append(f"orphans={show_pieces(ts)}")
             ok = stage("resolve", lambda: FM.resolve_tokens(ts, sty))
             ok = ok and stage("indent", lambda: FM.indent(ts, sty.INDENTATION))
@@ -3245,9 +3265,16 @@ def t2_units(ctx: fw.Ctx, which: list[str], name: str = "T2:units") -> None:
         vals += ['"' + "ab " * k + "\\u{" + "1" * j + "}" + " c" * m + '"' for k in range(4) for j in range(5) for m in range(3)]
         vals += ["a" * k + "\\" + d + "b" for k in range(3) for d in ("1", "12", "123", "1234", "x41", "xg", "n", "z", "u", "u{", "u{}", "\\")]
         for v in vals:
-            reqs.append((("munit", "escpos", hx(v)), lambda v=v: "ok " + " ".join(map(str, sorted(priv["__escape_positions"](v))))))
+            f_esc, f_nl = fm_private("__escape_positions"), fm_private("__get_newline_pos")
+            if f_esc is not None:
+                reqs.append((("munit", "escpos", hx(v)), lambda v=v, f_esc=f_esc: "ok " + " ".join(map(str, sorted(f_esc(v))))))
+            else:
+                st.notes["skipped __escape_positions (no such function)"] = True
             for m in range(-1, len(v) + 2):
-                reqs.append((("munit", "newlinepos", hx(v), str(m)), lambda v=v, m=m: f"ok {priv['__get_newline_pos'](v, m)}"))
+                if f_nl is not None:
+                    reqs.append((("munit", "newlinepos", hx(v), str(m)), lambda v=v, m=m, f_nl=f_nl: f"ok {f_nl(v, m)}"))
+                else:
+                    st.notes["skipped __get_newline_pos (no such function)"] = True
         r = ctx.rng("units-wrap")
         stys = [FormattingStyle, MinifiedStyle] + [mkstyle(dict(LINE_WIDTH=w, INDENTATION=i)) for w in (1, 5, 8, 13) for i in ("\t", "  ", "")]
         pool = ["a", "b", " ", " ", "\\n", "\\u{e9}", "\\u{1f600}", "\\x00", "\\\\", "\\\"", ".", "1", "\\12", "\\z", "{", "}"]
@@ -3335,7 +3362,7 @@ def t2_passes(ctx: fw.Ctx, name: str = "T2:passes") -> None:
         "remove": lambda ts, sty: FM.remove_separators(ts),
         "brackets": lambda ts, sty: FM.indent_brackets(ts, sty),
         "spacing": lambda ts, sty: FM.add_spacing(ts, sty),
-        "orphans": lambda ts, sty: priv["__remove_orphaned_tokens"](ts),
+        "orphans": lambda ts, sty: (fm_private("__remove_orphaned_tokens") or _py_remove_orphaned)(ts),
         "resolve": lambda ts, sty: FM.resolve_tokens(ts, sty),
         "indent": lambda ts, sty: FM.indent(ts, sty.INDENTATION),
     }
